@@ -203,6 +203,57 @@ def r14_tokenizer_calls(ctx: Context) -> None:
             rule.fail(key, site.where, f"{site.caller.short} asks the tokenizer for a stream with {different or mine} (this call, {sites[0].caller.short}): the passes do not deliver the same stream - for example the end-of-stream token is missing in one of them")
 
 
+def r14_single_start(ctx: Context) -> None:
+    """'... is told that a new file starts ... each exactly once': a pass that starts the file through
+    several calls of the manager (one per context: the fixing rules, the collecting rules) must give
+    every call its own list of rules, and the manager must honour a list even when it is empty -
+    otherwise the same rule is started twice in one pass."""
+    prog = ctx.prog
+    rule = ctx.rule("R14m", "a pass that starts the file in several calls gives each call its own rule list, and an empty list selects nobody", 3)
+    starting = prog.method(PM, "starting_new_file")
+    if "constraint_id_list" not in starting.params:
+        raise AnalysisError("PluginManager.starting_new_file no longer takes a list of rules to start")
+    position = starting.params.index("constraint_id_list") - 1
+    by_caller: Dict[str, List[CallSite]] = {}
+    for site in prog.callers.get(starting.qualname, []):
+        by_caller.setdefault(site.caller.qualname, []).append(site)
+    for qual, sites in sorted(by_caller.items()):
+        caller = sites[0].caller
+        key = f"{caller.short}: starts"
+        if len(sites) == 1:
+            rule.ok(key, "one start per pass")
+            continue
+        lists = []
+        for site in sites:
+            given = next((norm(k.value) for k in site.node.keywords if k.arg == "constraint_id_list"), None)
+            if given is None and len(site.node.args) > position:
+                given = norm(site.node.args[position])
+            lists.append(given)
+        if any(g is None or g == "None" for g in lists):
+            rule.fail(key, sites[0].where, f"{caller.short} starts the file {len(sites)} times in one pass with the rule lists {lists}: a call without a list starts every enabled rule, so the rules of the other call are started twice")
+        elif len(set(lists)) != len(lists):
+            rule.fail(key, sites[0].where, f"{caller.short} starts the file {len(sites)} times with the same rule list {lists}")
+        else:
+            rule.ok(key, f"disjoint starts for {lists}")
+    # the manager: a given list is honoured even when it is empty
+    skips = [n for n in walk_local(starting.node) if isinstance(n, ast.Continue)]
+    honoured = False
+    for node in skips:
+        facts = guards_of(starting.node, node)
+        membership = [t for t, pol in facts if pol and isinstance(t, ast.Compare) and isinstance(t.ops[0], ast.NotIn) and "constraint_id_list" in norm(t.comparators[0])]
+        truthiness = [t for t, pol in facts if pol and isinstance(t, ast.Name) and t.id == "constraint_id_list"]
+        if membership and not truthiness:
+            honoured = True
+        elif membership and truthiness:
+            rule.fail(f"{starting.short}: empty list", where(starting, node), "the manager skips a rule only when the list of rules to start is non-empty: with an empty list (no collecting rules at the highest fix level) every enabled rule is started - a second time in that pass")
+            honoured = None  # type: ignore[assignment]
+            break
+    if honoured:
+        rule.ok(f"{starting.short}: empty list", "a list that is given is a constraint, also when empty")
+    elif honoured is False:
+        raise AnalysisError("PluginManager.starting_new_file: the test that applies the rule list was not found")
+
+
 def r14c(ctx: Context, rule_id: str = "R14c") -> None:
     """Four-way agreement of the dispatch tables (also R12d)."""
     prog = ctx.prog
@@ -566,6 +617,7 @@ def run(ctx: Context) -> None:
     r14ab(ctx, ra)
     r14_token_loops(ctx)
     r14_tokenizer_calls(ctx)
+    r14_single_start(ctx)
     r14c(ctx)
     r14d(ctx)
     r14e(ctx)
